@@ -36,6 +36,9 @@ func (w *Worker) run(fr *frame, blk, pred, stop *ssa.BasicBlock, rg *region, ski
 			vals := w.phiValues(fr, blk, pred)
 			for i := 0; i < nphi; i++ {
 				fr.env[blk.Instrs[i].(*ssa.Phi)] = vals[i]
+				if traceFn != "" && fr.fn.Name() == traceFn {
+					fmt.Fprintf(os.Stderr, "TRACE %s b%d phi %s(%s) = %s  [pred b%d]\n", traceFn, blk.Index, blk.Instrs[i].(*ssa.Phi).Name(), blk.Instrs[i].(*ssa.Phi).Comment, w.describe2(vals[i]), pred.Index)
+				}
 			}
 		}
 		skipPhis = false
@@ -52,6 +55,9 @@ func (w *Worker) run(fr *frame, blk, pred, stop *ssa.BasicBlock, rg *region, ski
 				next = blk.Succs[0]
 			case *ssa.If:
 				c := w.get(fr, ins.Cond).(*Term)
+				if traceFn != "" && fr.fn.Name() == traceFn {
+					fmt.Fprintf(os.Stderr, "TRACE %s b%d if %s inMerge=%d guards=%d\n", traceFn, blk.Index, c, w.inMerge, len(w.guards))
+				}
 				if v, ok := w.lookupKnown(c); ok {
 					if debugSites != nil {
 						fmt.Fprintf(os.Stderr, "if: known=%v at %s: %s\n", v, w.curPos(), c)
@@ -314,6 +320,11 @@ func (w *Worker) applyMerge(fr *frame, join *ssa.BasicBlock, arrs []arrival) Val
 		}
 		return r
 	}
+	// compute every merged phi value first: a value that cannot be merged aborts the whole
+	// merge, and the join's phi registers (live inputs of the region when the join is a loop
+	// header) must then be untouched
+	var phis []*ssa.Phi
+	var merged []Value
 	for k, ins := range join.Instrs {
 		phi, ok := ins.(*ssa.Phi)
 		if !ok {
@@ -323,7 +334,35 @@ func (w *Worker) applyMerge(fr *frame, join *ssa.BasicBlock, arrs []arrival) Val
 		for i := len(arrs) - 2; i >= 0; i-- {
 			r = w.ite(arrs[i].g, arrs[i].phiVals[k], r)
 		}
-		fr.env[phi] = r
+		phis = append(phis, phi)
+		merged = append(merged, r)
+	}
+	for i, phi := range phis {
+		fr.env[phi] = merged[i]
 	}
 	return nil
+}
+
+var traceFn = os.Getenv("SYMGO_TRACE")
+
+func (w *Worker) describe2(v Value) string {
+	switch x := v.(type) {
+	case Ptr:
+		if x.isNil() {
+			return "nilptr"
+		}
+		if x.alts != nil {
+			s := "alts{"
+			for _, a := range x.alts {
+				s += a.g.String() + "->" + w.describe2(a.p) + "; "
+			}
+			return s + "}"
+		}
+		return fmt.Sprintf("ptr(%p)", x.p)
+	case *Term:
+		return x.String()
+	case SliceV:
+		return fmt.Sprintf("slice(len %d)", len(x.s))
+	}
+	return fmt.Sprintf("%T", v)
 }
